@@ -10,7 +10,7 @@ from common import prove, driver
 THEOREMS = ["Matid.Props.C19." + t for t in (
     "ne_nanLit_always", "isnan_cond_is_spec", "spec_finitePos", "custom_unchanged", "consumer_equal",
     "preset_covalent_spec", "preset_vdw_spec", "preset_vdw_covalent_spec",
-    "preset_vdw_covalent_finite_positive", "cov_defined", "preset_vdw_covalent_len_ok")]
+    "preset_vdw_covalent_finite_positive", "cov_defined", "preset_vdw_covalent_len_ok", "consumers_resolve_via_get_radii")]
 TRUSTED = ["Lean 4 kernel", "axioms: propext, Classical.choice, Quot.sound at most (audited per run)",
            "tools/gen_radii.py (AST translator of get_radii; output compared with the real function for Z=0..103 x 3 presets)",
            "ASE radii tables as exact decimals (1e-4 A units)"]
@@ -55,7 +55,7 @@ def search_real(ctx, directed=()):
     return bad
 
 
-def consumers(ctx, n):
+def consumers(ctx, n, table_sized=False):
     """preset vs the same numbers as a custom array: get_dimensionality, get_distances, SBC"""
     import matid.geometry as G
     from matid.clustering import SBC
@@ -66,9 +66,13 @@ def consumers(ctx, n):
     without = [61, 84, 85, 86, 87, 88]
     for k in range(n):
         nat = int(rng.integers(2, 14))
+        if table_sized:
+            # structures whose atom count equals (or neighbours) the length of the element tables: a per-atom array of that
+            # length must still be used per atom
+            nat = len(G.covalent_radii) + int(rng.integers(-1, 2)) if hasattr(G, "covalent_radii") else 119 + int(rng.integers(-1, 2))
         pool = with_vdw + (without if k % 2 else [])
         nums = rng.choice(pool, nat)
-        cell = np.diag(rng.uniform(3, 9, 3))
+        cell = np.diag(rng.uniform(3, 9, 3)) * (3.0 if table_sized else 1.0)
         pos = rng.random((nat, 3)) @ cell
         pbc = rng.random(3) < 0.6
         a = Atoms(numbers=nums, positions=pos, cell=cell, pbc=pbc)
@@ -86,7 +90,7 @@ def consumers(ctx, n):
                 m1 = G.get_distances(a, preset).dist_matrix_radii_mic
                 m2 = G.get_distances(a, np.array(arr)).dist_matrix_radii_mic
                 ok = (d1[0] == d2[0] and sorted(map(sorted, d1[1])) == sorted(map(sorted, d2[1])) and np.array_equal(m1, m2))
-                if k % 5 == 0:
+                if k % 5 == 0 and not table_sized:
                     c1 = SBC().get_clusters(a, radii=preset)
                     c2 = SBC().get_clusters(a, radii=np.array(arr))
                     ok = ok and sorted(sorted(c.indices) for c in c1) == sorted(sorted(c.indices) for c in c2)
@@ -104,7 +108,7 @@ def run(ctx):
     import gen_radii
     broken = []
     # 1. translator + proof
-    terr = common.regen(ctx, ("radii",))
+    terr = common.regen(ctx, ("radii", "dim_rule"))
     if terr:
         for t in THEOREMS:
             ctx.obligations.append((t, False))
@@ -134,6 +138,7 @@ def run(ctx):
     # 3. the property's oracle on the real code (exhaustive; doubles as the failing-input search)
     bad = search_real(ctx)
     bad_cons = consumers(ctx, ctx.n(40, 600))
+    bad_cons += consumers(ctx, ctx.n(6, 60), table_sized=True)
     if bad:
         zs = sorted({b[0] for b in bad if b[0] is not None})
         ctx.finding("preset-mismatch", "get_radii deviates from the documented table for Z in %s" % zs,
